@@ -32,6 +32,10 @@ func runC08(p *Prog, r *Report) {
 	c08R3(p, r)
 	c05R2(p, r, "C08.R4", []string{"builder.(*Enum).Build"})
 	pkgLevelStateRule(p, r, "C08.R5")
+	r.Rule("C08.R8", "generated sub-methods (nested enum conversions) take the converter-level enum settings (enum:unknown …), never those of the method that happens to create them first", 1)
+	subMethodCommonRule(p, r, "generator.(*generator).createSubMethod/Common")
+	transformEveryKeyRule(p, r, "C08.R7")
+	patternsUnmodifiedRule(p, r, "C08.R9")
 	armStoresRule(p, r, "C08.R6", "config.parseMethodLine", "enum:map", "enum:transform")
 }
 
